@@ -1396,8 +1396,65 @@ fn conc_mode(inputs: &[Value], seed: u64, si: usize, sn: usize, out: &mut TraceO
                     fin.push(json!({"k": k, "res": with_watchdog(move || get_res(&h3, &kb), Duration::from_secs(10))}));
                 }
                 shim::set_clock_skew(0);
-                out.emit(&json!({"ev": "conc", "kind": "stress-final", "final": fin}));
+                // At quiescence (every thread joined, the merger stopped) the sequential properties hold again, whatever
+                // the interleavings were: the counters equal ground truth (C19: dump vs an independent scan of the files),
+                // a restart reads what the store read (C02), with and without hint files (C12).
+                let dump = h.verif_dump();
+                let mut truth: BTreeMap<u64, (u64, u64, u64)> = BTreeMap::new();   // file -> (live, dead, dead bytes)
+                let mut scan_bad = String::new();
+                for (id, path) in list_files(&dir, "data") {
+                    let bytes = fs::read(&path).unwrap_or_default();
+                    let (ents, _trail, _junk) = bcverif::scan_data(&bytes);
+                    let mut live = 0u64;
+                    let mut live_bytes = 0u64;
+                    let total: u64 = ents.iter().map(|e| e.len).sum();
+                    for e in &ents {
+                        if dump.keydir.iter().any(|(k, f, p, l)| &k[..] == &e.key[..] && *f == id && *p == e.pos && *l == e.len) {
+                            live += 1;
+                            live_bytes += e.len;
+                        }
+                    }
+                    if !ents.is_empty() {
+                        truth.insert(id, (live, ents.len() as u64 - live, total - live_bytes));
+                    }
+                }
+                let mut stats_bad: Vec<String> = vec![];
+                for &(f, live, dead, dbytes) in &dump.stats {
+                    let t = truth.get(&f).copied().unwrap_or((0, 0, 0));
+                    if (live, dead, dbytes) != t {
+                        stats_bad.push(format!("file {f}: store says live {live} dead {dead} dead bytes {dbytes}, the files say {:?}", t));
+                    }
+                }
+                for (f, t) in &truth {
+                    if !dump.stats.iter().any(|s| s.0 == *f) {
+                        stats_bad.push(format!("file {f}: no counters, the files say {:?}", t));
+                    }
+                }
+                for (k, f, _, _) in &dump.keydir {
+                    if !truth.contains_key(f) && scan_bad.is_empty() {
+                        scan_bad = format!("the index points key {:?} into file {f}, which holds no entry", String::from_utf8_lossy(k));
+                    }
+                }
+                let before: Vec<String> = keys.iter().map(|k| get_res(&h, k.as_bytes())).collect();
+                drop(h);
                 drop(kv);
+                let reopen = |skip_hints: bool| -> Vec<String> {
+                    let sc2 = Scratch::new("q");
+                    bcverif::copy_dir(&dir, sc2.path(), skip_hints);
+                    match make_config(sc2.path(), &cfg).open() {
+                        Ok(kv2) => {
+                            let h2 = kv2.get_handle();
+                            let r = keys.iter().map(|k| get_res(&h2, k.as_bytes())).collect();
+                            drop(kv2);
+                            r
+                        }
+                        Err(e) => vec![format!("open failed: {e}")],
+                    }
+                };
+                let with_hints = reopen(false);
+                let without_hints = reopen(true);
+                out.emit(&json!({"ev": "conc", "kind": "stress-final", "final": fin, "stats_bad": stats_bad.iter().take(3).collect::<Vec<_>>(),
+                                 "index_bad": scan_bad, "reads_before_close": before, "after_restart": with_hints, "after_restart_without_hints": without_hints}));
             }
             k => panic!("kind {k}"),
         }
